@@ -390,8 +390,17 @@ func minInt(a, b int) int {
 
 // c11Step applies op to app and model and compares.
 func c11Step(w *appx.World, n c11node, o appx.Op, st *report.Stats) (c11node, string) {
-	a := appx.Clone(n.a)
-	m := n.m.clone()
+	return c11StepOpt(w, n, o, st, true)
+}
+
+// c11StepOpt with clone=false steps the node in place (long walks, where copying
+// an ever growing state at every step would be quadratic).
+func c11StepOpt(w *appx.World, n c11node, o appx.Op, st *report.Stats, clone bool) (c11node, string) {
+	a, m := n.a, n.m
+	if clone {
+		a = appx.Clone(n.a)
+		m = n.m.clone()
+	}
 	next := c11node{node: node{a, n.nops + 1}, m: m, first: n.first, lastTx: n.lastTx, pre: n.pre}
 	if o.Kind == "replay" {
 		tx := n.first
@@ -547,6 +556,36 @@ func c11() *report.Check {
 			}
 			const parts = 4
 			unit := -1
+			// long deterministic walks in lock-step with the model: one fixed history of
+			// 3000 steps per (n,t). Not an enumeration of histories (the BFS below is); it
+			// carries the model comparison into states only long histories reach (many
+			// accepted configs and eons, large nonce sets).
+			for ci, cf := range cfgs {
+				if (ci+5)%c.NShards != c.Shard {
+					continue
+				}
+				w, g, alphabet := c11World(cf)
+				n := c11Init(w, g)
+				var hist []appx.Op
+				for k := 0; k < 3000; k++ {
+					o := alphabet[(k*13+k/7*5+3)%len(alphabet)]
+					if k%9 == 8 {
+						o = endblock
+					}
+					hist = append(hist, o)
+					next, msg := c11StepOpt(w, n, o, c.Stats, false)
+					c.Stats.Traces++
+					c.Stats.Count("long_walk_transitions", 1)
+					if msg != "" {
+						c.Violation("C11/governance-differs-from-model/long-walk/"+o.Kind, fmt.Sprintf("n=%d t=%d step %d of the long walk (%s): %s", cf.N, cf.T, k, o, msg), c11Replay{cf, hist})
+						break
+					}
+					n = next
+					if c.Expired() {
+						break
+					}
+				}
+			}
 			for _, cf := range cfgs {
 				w, g, alphabet := c11World(cf)
 				root := c11Init(w, g)
